@@ -123,8 +123,15 @@ func zzC19_TreeLine() {
 	tw := zzInt("termWidth")
 	zzAssume(tw >= 0 && tw <= 400)
 	zzAssume(zzWidth(task.ID) == len(task.ID)) // ids are ASCII
-	line := formatTreeLine(zzString("prefix"), zzString("connector"), zzBool("showConnector"), zzString("icon"), task.ID, zzString("title"), nil, zzString("blocker"), task, zzBool("ready"), zzBool("color"), tw)
+	prefix, connector, icon := zzString("prefix"), zzString("connector"), zzString("icon")
+	line := formatTreeLine(prefix, connector, zzBool("showConnector"), icon, task.ID, zzString("title"), nil, zzString("blocker"), task, zzBool("ready"), zzBool("color"), tw)
 	zzAssert(zzWidth(line) >= tw-idRightMargin || tw < idRightMargin+idMinGap+len(task.ID), "C19/layout: the id never ends left of its right-hand column")
+	if tw >= 40 && len(task.ID) <= 8 && zzWidth(prefix) <= 4 && zzWidth(connector) <= 4 && zzWidth(icon) <= 4 {
+		// the fixed part (tree glyphs + icon) leaves room: whatever the title and the blocker text
+		// are, they are cut to fit, and the row ends with the id exactly at the right margin
+		zzAssert(zzWidth(line) == tw-idRightMargin, "C19/layout: with room for the fixed part, the row fits the terminal and the id ends exactly in its right-hand column")
+		zzReach("roomy")
+	}
 	zzReach("end")
 }
 
